@@ -1,5 +1,7 @@
 SPECIFICATION Spec
 CONSTANTS
+  Intervals = {100000}
+  Cycles = {31250}
   MaxLen = 2
   MaxIter = 1
   MaxOps = 3
